@@ -15,6 +15,7 @@ import EinoV.Model.C20Keys
 import EinoV.Proofs.C20Keys
 import EinoV.Proofs.C20KeysTie
 import EinoV.Proofs.C20Static
+import EinoV.Proofs.C20Dup
 import EinoV.Expected.C20Static
 import EinoV.Gen.FactsC20
 import EinoV.Expected.C20
@@ -675,6 +676,41 @@ theorem workflow_static_values_fixed_partial (F : SV.SFacts) (hg : F.guarded = t
     (SV.runOps F inp st ops).1.1.statics = st.1.statics ∧ (SV.runOps F inp st ops).1.1.compiled = true :=
   SV.runOps_guarded F hg inp st hc ops
 
+/-! ## one (predecessor, node) pair declared several times (Model/C20Dup.lean) -/
+
+/-- Source fact tie: `addEdgeWithMappings` looks for the new edge among the control edges inside
+    `if !noControl { … }` and among the data edges inside `if !noData { … }`, each time before
+    the half is recorded – the two scans the builder model's `addEdgeBody` has. -/
+theorem edge_dup_scan_facts_match :
+    FactsC20.edgeDupScanInControlBlock = true ∧ FactsC20.edgeDupScanInDataBlock = true := by
+  decide
+
+/-- **rejects_duplicate_edge_of_any_kind.**  "Duplicate edges", per call and for every kind of
+    edge: on an error-free, uncompiled builder a call `addEdgeWithMappings(s, e, noControl, noData)`
+    that carries a half – control or data – which the pair (s, e) already has is answered with an
+    error, and the error is stored. -/
+theorem rejects_duplicate_edge_of_any_kind (im : Impl) (ord : Ord) (b : Builder)
+    (he : b.buildError = none) (hc : b.compiled = false) (s e : Key) (nc nd : Bool) (m : Option Nat)
+    (hn : (nc && nd) = false)
+    (h : (nc = false ∧ (s, e) ∈ b.controlEdges) ∨ (nd = false ∧ (s, e) ∈ b.dataEdges)) :
+    ∃ k, (step srcFacts im ord b (.edge s e nc nd m)).2.1 = .fresh k ∧
+         (step srcFacts im ord b (.edge s e nc nd m)).1.buildError = some k :=
+  step_edge_dup_err srcFacts srcFacts_guarded im ord b he hc s e nc nd m hn h
+
+/-- **rejects_workflow_duplicate_input.**  "Duplicate edges" for the Workflow API, whatever the
+    kinds, the order and the position: if the declarations of some node (or of END) name one
+    predecessor twice – `i1` somewhere before `i2`, anything in between, before and after – and the
+    two kinds share a half (`InKind.clash`: every combination of AddInput / AddDependency /
+    WithNoDirectDependency except AddDependency + WithNoDirectDependency), then no Compile of the
+    Workflow succeeds, with any options, under every map iteration order, sub-graphs arbitrary. -/
+theorem rejects_workflow_duplicate_input (im : Impl) (ord : Ord) (hv : ord.Valid) (chk : Bool) (d : WfDecl)
+    (dst : Key) (ins : List WfIn)
+    (hwhere : (∃ n ∈ d.nodes, n.key = dst ∧ n.ins = ins) ∨ (dst = END ∧ d.endIns = ins))
+    (i1 i2 : WfIn) (hsub : List.Sublist [i1, i2] ins) (hsrc : i1.src = i2.src)
+    (hcl : i1.kind.clash i2.kind = true) (cos : List COpts) :
+    ∀ oc ∈ (d.lower chk).compiles (srcEnv im ord) cos, oc.isOk = false :=
+  wf_dup_rejected (srcEnv im ord) srcFacts_guarded (srcEnv_inCtl im ord) hv chk d dst ins hwhere i1 i2 hsub hsrc hcl cos
+
 /-! ## non-vacuity and negation witnesses -/
 
 def exImpl : Impl := [(.conc 3, 0)]
@@ -841,6 +877,46 @@ theorem late_static_value_reaches_next_compile :
       [.compile, .set "a" "late" "v", .compile, .run 0, .run 1]).2
     = [.compiled, .ok, .compiled, .ran (some (kv [("a", .obj (kv [("f0", .str "x0")]))])),
        .ran (some (kv [("a", .obj (kv [("f0", .str "x0")]))]))] := by
+  decide
+
+/-! ### one pair declared twice -/
+
+/-- which pairs of kinds are duplicates: all but AddDependency + WithNoDirectDependency -/
+example :
+    InKind.clash .dep .indirect = false ∧ InKind.clash .indirect .dep = false ∧
+    InKind.clash .input .input = true ∧ InKind.clash .input .dep = true ∧ InKind.clash .input .indirect = true ∧
+    InKind.clash .dep .input = true ∧ InKind.clash .dep .dep = true ∧
+    InKind.clash .indirect .input = true ∧ InKind.clash .indirect .indirect = true := by
+  decide
+
+/-- Workflow START → a → END with a second declaration of the pair (START, END) in every
+    combination: refused at every Compile, except AddDependency + WithNoDirectDependency (either
+    order), which is one control + data connection – `rejects_workflow_duplicate_input` is not
+    vacuous and its exception is real -/
+example :
+    let wf (k1 k2 : InKind) : WfDecl :=
+      { inT := .conc 0, outT := .conc 0, stateTy := none, nodes := [wlam "a" [⟨START, .input, none⟩]],
+        endIns := [⟨"a", .input, some 1⟩, ⟨START, k1, some 2⟩, ⟨START, k2, some 3⟩], branches := [] }
+    ((wf .indirect .input).lower true).compiles (exEnv true) [copts, copts] = [.stored .dupData, .stored .dupData] ∧
+    ((wf .input .indirect).lower true).compiles (exEnv true) [copts] = [.stored .dupData] ∧
+    ((wf .input .dep).lower true).compiles (exEnv true) [copts] = [.stored .dupControl] ∧
+    ((wf .dep .dep).lower true).compiles (exEnv true) [copts] = [.stored .dupControl] ∧
+    ((wf .indirect .indirect).lower true).compiles (exEnv true) [copts] = [.stored .dupData] ∧
+    ((wf .dep .indirect).lower true).compiles (exEnv true) [copts, copts] = [.ok, .ok] ∧
+    ((wf .indirect .dep).lower true).compiles (exEnv true) [copts] = [.ok] := by
+  decide
+
+/-- With ONE scan "among the edges of the new edge's own kind" in front of the bookkeeping, a
+    control + data edge after a data-only edge of the same pair is accepted (the other order and
+    every other combination are still refused): `rejects_duplicate_edge_of_any_kind` is false for
+    that shape of `addEdgeWithMappings`. -/
+theorem duplicate_accepted_when_scan_is_by_own_kind :
+    let ops (nc1 nd1 nc2 nd2 : Bool) : List Op :=
+      [lam "a" (.conc 0) (.conc 0), .edge START "a" nc1 nd1 none, .edge START "a" nc2 nd2 none]
+    runScan false Expected.C20.facts exImpl Ord.id b0 (ops true false false false) = [.ok, .ok, .ok] ∧
+    runScan true Expected.C20.facts exImpl Ord.id b0 (ops true false false false) = [.ok, .ok, .fresh .dupData] ∧
+    runScan false Expected.C20.facts exImpl Ord.id b0 (ops false false true false) = [.ok, .ok, .fresh .dupData] ∧
+    runScan false Expected.C20.facts exImpl Ord.id b0 (ops false false false false) = [.ok, .ok, .fresh .dupControl] := by
   decide
 
 /-! ### key options -/
